@@ -249,6 +249,9 @@ pub fn files_below(dir: &Path) -> Vec<PathBuf> {
 
 // ------------------------------------------------------------------ one storescp per worker thread and mode
 
+/// the output directory relative to the sandbox
+pub const OUT_REL: &str = "a/b/c/d/e/out";
+
 struct Scp {
     proc_: ToolProc,
     sandbox: tempfile::TempDir,
@@ -259,7 +262,8 @@ thread_local! {
 }
 
 /// (port, sandbox directory) of this thread's dicom-storescp for the mode; started on first use,
-/// restarted when it has exited.  The output directory is `<sandbox>/a/out`.
+/// restarted when it has exited.  The output directory is `<sandbox>/a/b/c/d/e/out`, deep enough
+/// for a few `../` to stay inside the sandbox should the tool follow them.
 pub fn thread_storescp(root: &Path, non_blocking: bool) -> Result<(u16, PathBuf), String> {
     let slot = non_blocking as usize;
     SCP.with(|s| {
@@ -271,7 +275,7 @@ pub fn thread_storescp(root: &Path, non_blocking: bool) -> Result<(u16, PathBuf)
         }
         if s[slot].is_none() {
             let sandbox = tempfile::Builder::new().prefix("vcheck-scp-").tempdir().map_err(|e| e.to_string())?;
-            let out = sandbox.path().join("a").join("out");
+            let out = sandbox.path().join(OUT_REL);
             std::fs::create_dir_all(&out).map_err(|e| e.to_string())?;
             let extra: Vec<&str> = if non_blocking { vec!["--non-blocking"] } else { vec![] };
             let p = start_storescp(root, &out, &extra, sandbox.path())?;
